@@ -491,23 +491,36 @@ def rule_cap(ctx, classes=SKETCH_CLASSES):
                            "multiplicity passed to a %r parameter is <= %d (a larger Python int wraps silently)" % (pty, hi),
                            bool(pr), "" if pr else "the argument is not capped with min(., self.uint_maxval) before the call",
                            proof=pr, facts=fact_strs(e))
-    # kernel-internal callers pass constants
+    # kernel-internal callers: the multiplicity handed on fits the callee's parameter type (decided from the caller's facts)
+    seen_callers = []
     for k in F.kcalls():
-        if k.caller.is_kernel and k.callee.is_kernel and "value" in k.callee.params:
-            pty = k.callee.ptypes.get("value")
-            a = k.argmap.get("value")
-            if pty is None or a is None or pty.bits >= 64:
+        if k.caller.is_kernel and k.callee.is_kernel and "value" in k.callee.params and k.caller not in seen_callers \
+                and not F.is_inlined_helper(k.caller):
+            seen_callers.append(k.caller)
+    for caller in seen_callers:
+        w = walk_kernel(F, caller)
+        evs = [e for e in w.events if e.kind == "call" and e.callee is not None and e.callee.is_kernel and not getattr(e, "inlined", False)
+               and "value" in e.callee.params]
+        for g in group_by_node(evs):
+            e0 = g[0]
+            pty = e0.callee.ptypes.get("value")
+            if pty is None or pty.is_array or pty.kind != "uint" or pty.bits >= 64:
                 continue
-            v = const_int(a)
-            if v is None and isinstance(a, ast.Name):
-                sty = k.caller.ptypes.get(a.id)
-                okk = sty is not None and sty.kind == "uint" and sty.bits <= pty.bits
-                ctx.ob("cap", k.caller, k.node, "%s(value=%s)" % (k.callee.name, unparse(a)),
-                       "internal multiplicity fits the %r parameter" % pty, okk if sty else None)
-            else:
-                ctx.ob("cap", k.caller, k.node, "%s(value=%s)" % (k.callee.name, unparse(a)),
-                       "internal multiplicity fits the %r parameter" % pty,
-                       (v is not None and 0 <= v <= 2 ** pty.bits - 1) if v is not None else None)
+            i = e0.callee.params.index("value")
+            res = []
+            for e in g:
+                a_ = e.args[i] if i < len(e.args) else None
+                if not isinstance(a_, Num):
+                    res.append((None, "argument not understood"))
+                    continue
+                hi = 2 ** pty.bits - 1
+                p1 = w.P.prove_le0(a_.lin - hi, e.facts)
+                p2 = w.P.prove_le0(-a_.lin, e.facts)
+                res.append((bool(p1 and p2), "0 <= %s <= %d" % (show_lin(a_.lin), hi) if p1 and p2 else
+                            "cannot prove 0 <= %s <= %d: the callee's %r parameter truncates it" % (show_lin(a_.lin), hi, pty), fact_strs(e)))
+            amap = e0.node.args[i] if isinstance(e0.node, ast.Call) and i < len(e0.node.args) else None
+            agg(ctx, "cap", caller, e0.node, "%s(value=%s)" % (e0.callee.name, unparse(amap) if amap is not None else "?"),
+                "internal multiplicity fits the %r parameter" % pty, res)
             n += 1
     return n
 
